@@ -828,35 +828,39 @@ def design_jobs(ctx):
     def add(lane, name, cfg_text, workers, module="MC_Naming", **kw):
         lanes[lane].append(lambda acc: acc.tlc(module, module + "_" + name, cfg_text=cfg_text, workers=workers, timeout=1800, **kw))
 
-    big = {} if q else dict(mc=4)
     add(0, "refs", mc_cfg(**dict(REFS, **({} if q else dict(mc=4, invalid=False)))), 2, expect_actions=ACTIONS["refs"],
         label="Naming repaired (eight repairs), references / become / remove / setter: every theorem")
     add(1, "names", mc_cfg(**dict(NAMES, **({} if q else dict(mc=4, mn=4, invalid=False)))), 2, expect_actions=ACTIONS["names"],
         label="Naming repaired, explicit / '*' / inferred / auto names and private constants under colliding draws: every theorem")
     add(1, "default", mc_cfg(**dict(DEFAULT, **({} if q else dict(mc=4, toks=("s",))))), 2, expect_actions=ACTIONS["default"],
         label="Naming repaired, model= / parent's model / default model, set_default_model / new_model / get_default_model: every theorem")
-    add(0, "code", mc_cfg(fix="NoFix", invs=INV_CODE, **REFS), 2, expect_actions=ACTIONS["refs"],
-        label="Naming as the code is (no repair): what does hold")
     if not q:
+        add(0, "code", mc_cfg(fix="NoFix", invs=INV_CODE, **REFS), 2, expect_actions=ACTIONS["refs"],
+            label="Naming as the code is (no repair): what does hold")
         add(0, "refs_invalid", mc_cfg(**REFS), 2, label="Naming repaired, references, invalid arguments too (3 calls)")
         add(1, "names_invalid", mc_cfg(**NAMES), 2, label="Naming repaired, names, invalid arguments too (3 calls)")
         add(1, "code_names", mc_cfg(fix="NoFix", invs=INV_CODE, **NAMES), 2, label="Naming as the code is, names")
-    cost = [0, 0]
+    # controls: every one in the thorough tier, the seven most telling ones in the quick tier (each costs a JVM start)
+    quick_controls = ("become_class", "become_atomic", "create_atomic", "setter_atomic", "cascade_constants_only")
+    cost = [1 if q else 0, 0]
     for fixname, kw in CONTROLS:
+        if q and fixname not in quick_controls:
+            continue
         k = cost.index(min(cost))
         cost[k] += 1
         add(2 + k, "without_" + fixname, mc_cfg(fix="W_" + fixname, invs=INV_USER, **kw), 1, expect_ok=False,
             label="Naming control: the code's behaviour without the repair '%s'" % fixname)
-    add(2, "stale", mc_cfg(invs=["StaleNeverRevives"], plain="MCPlainNames", calls=("create", "remove"), invalid=False, classes=("Operation",)), 1,
+    add(3, "stale", mc_cfg(invs=["StaleNeverRevives"], plain="MCPlainNames", calls=("create", "remove"), invalid=False, classes=("Operation",)), 1,
         expect_ok=False, label="Naming control: a reference whose node was removed revives when the name is used again (any repair)")
-    add(3, "modelnames", mc_cfg(invs=["ModelNamesUnique"], calls=("newmodel",), mm=2, mc=2), 1, expect_ok=False,
-        label="Naming control: ElfiModel() does not check its random name (any repair)")
     add(2, "ctx", ctx_cfg(INV_CTX, ["Immutable"], mo=5 if q else 7), 1 if q else 2, module="MC_NamingCtx", expect_actions=CTX_ACTIONS,
         label="NamingCtx: context defaults, pool context, num_submissions / submission_index")
-    add(3, "ctx_bs0", ctx_cfg(["GivenBatchSizeKept"], mo=2), 1, module="MC_NamingCtx", expect_ok=False,
-        label="NamingCtx control: batch_size=0 silently becomes 1")
     add(3, "ctx_reuse", ctx_cfg(["BatchIndexNeverReused"], mo=5, bss="MCBatchSizesNoZero", seeds="MCSeedsSmall"), 1, module="MC_NamingCtx", expect_ok=False,
         label="NamingCtx control: a handler submits the same batch index again after cancel_pending / reset (submission_index tells them apart)")
+    if not q:
+        add(3, "modelnames", mc_cfg(invs=["ModelNamesUnique"], calls=("newmodel",), mm=2, mc=2), 1, expect_ok=False,
+            label="Naming control: ElfiModel() does not check its random name (any repair)")
+        add(3, "ctx_bs0", ctx_cfg(["GivenBatchSizeKept"], mo=2), 1, module="MC_NamingCtx", expect_ok=False,
+            label="NamingCtx control: batch_size=0 silently becomes 1")
     return lanes
 
 
@@ -889,3 +893,162 @@ class Design:
             self.ctx.negative_controls += lane.negative_controls
         if self.errors:
             raise self.errors[0]
+
+
+# ------------------------------------------------------------------------------ corrupted copies (binding demonstration)
+def corruptions(scs, traces):
+    """(what, expected clause, trace, index of the source trace): one field of a real trace is changed; TLC must reject the copy with the
+    clause.  Python only picks WHERE to corrupt."""
+    out = []
+
+    def cut(tr, j):
+        t = copy.deepcopy(tr)
+        t["events"] = t["events"][:j + 1]
+        return t
+    done = set()
+    for k, tr in enumerate(traces):
+        if tr["kind"] != "naming":
+            continue
+        for j, e in enumerate(tr["events"]):
+            a, o = e["a"], e["obs"]
+            if "name" not in done and a["op"] == "create" and e["raised"] == "" and a["nk"] == "none" and a["form"] in INFER_FORMS and a["marg"] > 0 \
+                    and any(nd["name"] == a["target"] for nd in o["models"][a["marg"] - 1]["nodes"]) and (j == 0 or not any(
+                        nd["name"] == a["target"] for nd in tr["events"][j - 1]["obs"]["models"][a["marg"] - 1]["nodes"])):
+                t = cut(tr, j)
+                for nd in t["events"][j]["obs"]["models"][a["marg"] - 1]["nodes"]:
+                    if nd["name"] == a["target"]:
+                        nd["name"] = "zz"
+                for r in t["events"][j]["obs"]["refs"]:
+                    if r["name"] == a["target"] and r["h"] == a["marg"]:
+                        r["name"] = "zz"
+                out.append(("a node that got its assignment target as name reported under another name", "E:create-node-names-in-order", t, k))
+                done.add("name")
+            if "draws" not in done and a["op"] == "create" and e["raised"] == "" and len(e["draws"]) >= 2:
+                t = cut(tr, j)
+                t["events"][j]["draws"] = t["events"][j]["draws"][:-1]
+                out.append(("one random_name() draw of a constructor left out", "E:create-random-name-draws", t, k))
+                done.add("draws")
+            if "becomecls" not in done and a["op"] == "become" and e["raised"] == "" and o["refs"][a["r1"] - 1]["cls"] != o["refs"][a["r1"] - 1]["stcls"]:
+                t = cut(tr, j)
+                t["events"][j]["obs"]["refs"][a["r1"] - 1]["cls"] = o["refs"][a["r1"] - 1]["stcls"]
+                out.append(("become() reported as having updated type(self)", "E:become-references", t, k))
+                done.add("becomecls")
+            if "dup" not in done and a["op"] == "create" and e["raised"] == "ValueError" and a["nk"] == "plain" and j > 0 and a["marg"] > 0 \
+                    and not a["parents"] and a["cls"] not in ("Summary", "Discrepancy") \
+                    and any(nd["name"] == a["nm"] for nd in tr["events"][j - 1]["obs"]["models"][a["marg"] - 1]["nodes"]):
+                t = cut(tr, j)
+                t["events"][j]["raised"] = ""
+                out.append(("a duplicate explicit name reported as accepted", "E:create-raises-as-the-design", t, k))
+                done.add("dup")
+            if "default" not in done and a["op"] == "newmodel" and a["setdef"] and e["raised"] == "" and j > 0:
+                t = cut(tr, j)
+                t["events"][j]["obs"]["default"] = tr["events"][j - 1]["obs"]["default"]
+                out.append(("new_model(set_default=True) reported as leaving the default model alone", "E:newmodel-default-model", t, k))
+                done.add("default")
+            if "param" not in done and a["op"] == "create" and e["raised"] == "" and a["cls"] == "Prior" and a["marg"] > 0:
+                t = cut(tr, j)
+                nd = t["events"][j]["obs"]["models"][a["marg"] - 1]
+                new = [x["name"] for x in nd["nodes"] if x["param"]][-1:]
+                if new:
+                    nd["pnames"] = [p for p in nd["pnames"] if p != new[0]]
+                    out.append(("a new Prior missing from parameter_names", "E:create-parameter-names-sorted", t, k))
+                    done.add("param")
+    for k, tr in enumerate(traces):
+        if tr["kind"] != "ctx":
+            continue
+        for j, e in enumerate(tr["events"]):
+            if "nsub" not in done and e["b"]["op"] == "submit" and e["raised"] == "":
+                t = cut(tr, j)
+                c = t["events"][j]["obs"]["hds"][e["b"]["hd"] - 1]["ctx"]
+                t["events"][j]["obs"]["ctxs"][c - 1]["nsub"] -= 1
+                out.append(("num_submissions not incremented by submit()", "E:submit-context-attributes", t, k))
+                done.add("nsub")
+            if "si" not in done and e["b"]["op"] == "wait" and e["raised"] == "" and e["ret"][1] > 0:
+                t = cut(tr, j)
+                t["events"][j]["ret"][1] -= 1
+                out.append(("a batch reported with the submission_index of the batch before", "E:wait-returned-meta", t, k))
+                done.add("si")
+    return out
+
+
+# ------------------------------------------------------------------------------ check
+CLAUSES_DESIGN = [
+    "repaired machine (eight repairs), every history of <= 3 (quick) / 4 (thorough) public calls over 2 classes, <= 3-4 nodes, <= 2 references, "
+    "draws from a two-letter alphabet: names unique per model; a new node lands in exactly one model (model= / first node parent's model / "
+    "default model) under its explicit, inferred, 'base*' or auto name with one Constant _<child>_<draw> per literal parent; auto names are "
+    "never refused; duplicates and parents of two models are refused; a call that raises changes no model; only ValueError / KeyError / "
+    "NetworkXError; no call changes another model; synced references round-trip through model[name]; become() leaves both references on the "
+    "node with its class; remove_node takes only Constants along; default model = the last one set; flags = Prior-class nodes until the "
+    "setter is used, then exactly the given names",
+    "each repair is necessary (eight controls); stale references revive by name and random model names are unchecked whatever the repair",
+    "the code as transcribed keeps: unique names, closed parents / observed keys, default = last set, other models unchanged, where a node "
+    "lands, lookups, setter result",
+    "stage by stage execution with one draw at a time = composed Run operator; every draw is consumed",
+    "NamingCtx: a context has batch_size >= 1 and a seed; a given seed (0 too) is kept; context and pool agree; num_submissions = batches "
+    "submitted on the context by whichever handler, cancelled or not; submission indices are 0,1,2,.. per context; pending batches are "
+    "consecutive below next_index; attributes never change; two controls (batch_size=0 -> 1; batch indices are reused after cancel / reset)"]
+CLAUSES_TRACE = [
+    "after every public call on real elfi objects (constructors executed from generated source files): outcome, number of random_name() "
+    "draws, models and their names, default model, node names in insertion order, classes, parameter flags, parents, observed keys, every "
+    "reference object (model, name, type, validity, state class), parameter_names = flagged nodes sorted by code point equal the design's Run",
+    "26 source shapes of the assignment: exactly the 12 the regex of _inspect_name matches give the target as name",
+    "ComputationContext / OutputPool / BatchHandler histories: context attributes, pool context, next_index, pending indices, num_submissions, "
+    "and the batch_index / submission_index / master_seed a uses_meta operation saw, equal CRun",
+    "the user-level theorems evaluated on every state the code was shown to be in (violations = findings, collected per history)"]
+
+
+def check_naming(ctx, design=True):
+    scs = scenarios(ctx)
+    bg = Design(ctx) if design else None
+    srcdir = os.path.join(ctx.outdir, "naming_src")
+    os.makedirs(srcdir, exist_ok=True)
+    traces = []
+    for k, sc in enumerate(scs):
+        traces.append(record_naming(sc, srcdir, k) if sc["kind"] == "naming" else record_ctx(sc))
+    if bg is not None:
+        bg.join()
+    corr = corruptions(scs, traces)
+    allv = ctx.validate("Naming_Trace", traces + [c[2] for c in corr], chunk=max(8, -(-(len(traces) + len(corr)) // (4 if ctx.quick else 6))), name="naming")
+    verdicts = allv[:len(traces)]
+    ctx.traces_validated -= len(corr)                # corrupted copies are not executions of the real code
+    for (what, want, _t, k), v in zip(corr, allv[len(traces):]):
+        if verdicts[k]["verdict"] != "ok":
+            continue          # the source trace itself fails (changed tree): its copy may fail earlier for that reason
+        if v["verdict"] != want:
+            raise tlc.MachineryFailure("Naming_Trace did not reject a corrupted trace (%s): expected %s, got %r" % (what, want, v))
+        ctx.negative_controls.append(dict(run="corrupted trace / Naming_Trace: " + what, refuted=want))
+    if len(corr) < 6 and all(v["verdict"] == "ok" for v in verdicts):
+        raise tlc.MachineryFailure("only %d of 8 corrupted-trace controls could be built from the recorded histories" % len(corr))
+    ncalls = nraised = 0
+    inv_count = {}
+    for sc, tr, v in zip(scs, traces, verdicts):
+        evs = tr["events"]
+        ncalls += len(evs)
+        nraised += sum(1 for e in evs if e["raised"])
+        brief = dict(kind=sc["kind"], seed=sc["seed"], pin=sc.get("pin"), script=sc.get("script", []), alpha=sc.get("alpha", []), calls=sc["calls"])
+        ctx.case("naming:%s:%s:%s" % (sc["kind"], sc["seed"], sc.get("pin")), nontrivial=sum(1 for e in evs if not e["raised"]) >= 3)
+        ctx.trace_events += len(evs)
+        if v["verdict"] != "ok":
+            k = min(max(v["l"] - 2, 0), len(evs) - 1)
+            e = evs[k] if evs else {}
+            ctx.drifted(v["verdict"], brief, detail=dict(call_index=k, call=e.get("a") or e.get("b"), raised=e.get("raised"), msg=e.get("msg"),
+                                                        draws=e.get("draws"), observed=e.get("obs")))
+        for name in [x for x in v["drift"].split("|") if x]:
+            inv_count[name] = inv_count.get(name, 0) + 1
+            ctx.drifted("E:" + name, brief, detail=dict(pinned=sc.get("pin"), outcomes=[e["raised"] for e in evs]))
+    ctx.trusted_base += ["harness wrappers: elfi.model.elfi_model.uuid / random_seed replaced by scripted stand-ins and _default_model reset to None "
+                         "for the duration of a history (restored afterwards)",
+                         "harness projection of models / references / contexts (identity of model, pool and context objects across calls)",
+                         "the table NamingOps!InferForms of source shapes (each rendered into a real source file and executed)"]
+    ctx.assumptions += ["become(): the replacement has no children and is no descendant of the replaced node (anything else is finding F14 of C14)",
+                        "a node is not given the same parent twice; positional parents only (keyword parents: C14)"]
+    ctx.notes.append("Naming extension: %d histories (%d pinned), %d calls, %d raised; %d corrupted-trace controls rejected; user-level theorems violated "
+                     "on states the code was shown to be in (histories): %s"
+                     % (len(scs), len(pinned()) + len(ctx_pinned()), ncalls, nraised, len(corr),
+                        ", ".join("%s=%d" % kv for kv in sorted(inv_count.items())) or "none"))
+    for i in (0, 4):
+        if i < len(traces):
+            ctx.sample(dict(pinned=scs[i].get("pin"), events=[dict(call={k: v for k, v in e["a"].items() if v != A0.get(k)}, raised=e["raised"], draws=e["draws"],
+                                                                   nodes=[[n["name"] for n in m["nodes"]] for m in e["obs"]["models"]],
+                                                                   refs=[[r["name"], r["cls"], r["valid"]] for r in e["obs"]["refs"]]) for e in traces[i]["events"]]))
+    return dict(histories=len(scs), calls=ncalls, raised=nraised, invariants_violated=inv_count, clauses_design=CLAUSES_DESIGN, clauses_trace=CLAUSES_TRACE)
